@@ -364,6 +364,8 @@ class ExprMixin:
                     items.append(self.eval(node.elt, e2, path, False))
             return SSeq(len(items), lambda i, items=items: _index_concrete(items, i), kind)
         if gen.ifs:
+            if kind == "gen":
+                return FilteredGen(self, node, gen, env, src, path)
             raise Unsupported("filtered comprehension over a symbolic-length source")
         if src.elem_raises is not None:
             self.materialise_raises(src, path)
@@ -825,3 +827,28 @@ class ExprMixin:
 class ItemsView:
     def __init__(self, d):
         self.d = d
+
+
+class FilteredGen:
+    """(elt for target in src if cond) over a symbolic-length source, consumed lazily by next()/any()."""
+    host_symbolic = True
+
+    def __init__(self, interp, node, gen, env, src, path):
+        self.I, self.node, self.gen, self.env, self.src = interp, node, gen, env, src
+
+    def _env(self, i, path):
+        e2 = self.env.child()
+        self.I.assign_target(self.gen.target, self.src.at(i), e2, path)
+        return e2
+
+    def pred(self, i, path):
+        e2 = self._env(i, path)
+        acc = z3.BoolVal(True)
+        with self.I.elem_scope():
+            for c in self.gen.ifs:
+                acc = z3.And(acc, to_bool_term(self.I.eval(c, e2, path, True)))
+        return acc
+
+    def elt(self, i, path):
+        with self.I.elem_scope():
+            return self.I.eval(self.node.elt, self._env(i, path), path, True)
